@@ -77,6 +77,7 @@ def process_top(job):
         custom = getattr(top, 'extra', {}).get('custom')
         if custom is not None:
             return custom(top, out, tier, seed)
+        inner_procs = getattr(top, 'extra', {}).get('procs') or inner_procs  # families of tiny lemmas: procs=1 (no fork per lemma)
         res = _big_frame(vcgen.verify, C.REG, top, tier)
         out['gen_s'] = time.time() - t0
         out['paths'] = res.paths
@@ -153,6 +154,15 @@ def process_top(job):
                         rr['confirms'] = True
                         w['replay'] = rr
                 e['witnesses'].append(w)
+        if str(out.get('note') or '').startswith('bounded('):
+            # an entry labelled `bounded(k)` in its note is a bounded stand-in: its obligations are reported under
+            # `bounded` and never counted as discharged (a refuted one is still a violation)
+            nb = 0
+            for e in out['names'].values():
+                if not e['expect_sat']:
+                    e['kind'] = 'bounded'
+                    nb += e['n']
+            out['bounded'].append({'entry': key, 'note': out['note'], 'obligations': nb, 'all_proved': all(e['proved'] == e['n'] for e in out['names'].values())})
     except Exception:
         out['error'] = traceback.format_exc()
     out['wall_s'] = time.time() - t0
@@ -252,13 +262,16 @@ def main():
     ncpu = int(os.environ.get('PYVC_PROCS') or 0) or os.cpu_count() or 4
     outer = max(1, min(len(tops), 5, max(1, ncpu // 2)))
     inner = max(2, (ncpu - 1) // outer)
+    if all((getattr(t, 'extra', {}) or {}).get('procs') == 1 for t in tops):
+        # a family of tiny lemmas that discharge their obligations in-process: all the parallelism goes to the outer pool
+        outer = max(1, min(len(tops), ncpu))
     jobs = [(prop, top_key(t), a.tier, seed, inner, timeout_ms) for t in tops]
     results = []
     if len(jobs) == 1:
         results = [process_top(jobs[0])]
     else:
         with cf.ProcessPoolExecutor(max_workers=outer) as pool:
-            for out_ in pool.map(process_top, jobs):
+            for out_ in pool.map(process_top, jobs, chunksize=max(1, min(8, len(jobs) // (outer * 4)))):
                 results.append(out_)
                 if os.environ.get('PYVC_PROGRESS'):
                     print(f'  .. {out_["key"]} gen={out_.get("gen_s", 0):.1f}s wall={out_.get("wall_s", 0):.1f}s err={bool(out_.get("error"))}', file=sys.stderr, flush=True)
@@ -310,7 +323,7 @@ def main():
             if e.get('disagree'):
                 errors.append(f'{name}: solvers disagree: {e["details"]}')
                 continue
-            if e.get('kind') == 'bounded' and not e['refuted']:
+            if e.get('kind') == 'bounded' and not e['refuted'] and not e['unknown'] and not e.get('vacuous'):
                 continue  # bounded stand-ins are reported under `bounded`, never counted as discharged
             if e['refuted']:
                 # triage by replay
